@@ -125,6 +125,28 @@ func corpus() []*Case {
 		}
 		add(fmt.Sprintf("service-grid-%02d", lo/8), store, tgt, nil)
 	}
+	// objects named with the bare prefix (legal in a raw file): "Netspoc" not followed by "-"
+	{
+		x1 := func(dst string) Rule { return rul("x1", gpath("Netspoc_dmz"), dst, "") }
+		// left over on the manager, no target rule uses it any more
+		add("bare-prefix-leftover-group",
+			&Config{Groups: []Group{grp("Netspoc_dmz", "10.9.9.1", "10.9.9.2"), grp("NetspocOld", "10.9.9.9")},
+				Policies: []Policy{{"Netspoc-v1", []Rule{rul("r1", "10.1.1.10", "10.2.1.10", "")}}, {"Netspoc_old", []Rule{rul("r1", "ANY", "ANY", "")}}}},
+			&Config{Policies: []Policy{{"Netspoc-v1", []Rule{rul("r1", "10.1.1.10", "10.2.1.10", "")}}}}, nil)
+		// raw policy and raw group with such names, transferred by the first run; the second compare must be empty
+		add("bare-prefix-raw-policy",
+			&Config{},
+			&Config{Policies: []Policy{{"Netspoc-v1", []Rule{rul("r1", "10.1.1.10", "10.2.1.10", "")}}}},
+			&Config{Groups: []Group{grp("Netspoc_dmz", "10.9.9.1", "10.9.9.2")},
+				Policies: []Policy{{"Netspoc_extra", []Rule{x1("10.2.1.20")}}, {"Netspoc", []Rule{rul("x2", "ANY", gpath("Netspoc_dmz"), "")}}}})
+		// the address list of such a raw group changes; a rule of Netspoc-v1 uses it
+		add("bare-prefix-raw-group-changed",
+			&Config{Groups: []Group{grp("Netspoc_dmz", "10.9.9.1", "10.9.9.2")},
+				Policies: []Policy{{"Netspoc-v1", []Rule{x1("10.2.1.20")}}}},
+			&Config{Policies: []Policy{{"Netspoc-v1", nil}}},
+			&Config{Groups: []Group{grp("Netspoc_dmz", "10.9.9.1", "10.9.9.2", "10.9.9.3")},
+				Policies: []Policy{{"Netspoc-v1", []Rule{x1("10.2.1.20")}}}})
+	}
 	// witness: raw policy whose id lacks the prefix
 	add("raw-policy-without-prefix",
 		&Config{},
